@@ -14,6 +14,8 @@ A *case* is a history over two registry instances and up to three threads:
     ("dropguard", t, g)     drop(EnteredSpan)              (model: exit + drop)
     ("cur", t, h, tr)       h = Span::current()  (tr=1: SpanTrace::new(Span::current()))
     ("event", t, kind, hp)  an event; layer 1 records lookup_current / event_span / event_scope / a dump of every span
+    ("evq", t, q)           an event whose EXPLICIT parent is the retained Id of span number q — possibly stale (closed span, recycled
+                            slot); both recording views (layer 1 and the filtered layer) as for `event`   (model: OEventQ)
     ("read", t, h)          SpanTrace::with_spans / span(id).scope() through the handle's own dispatch
     ("pdrop", t, h)         the handle is dropped while a (contained) panic unwinds          (model: drop)
     ("fdrop", t, h)         the handle is dropped and the OUTERMOST layer's on_close panics for that span (contained): every
@@ -318,6 +320,8 @@ class Gen:
         t = r.randrange(self.nt)
         k = r.random()
         c = self.live("S")
+        if self.nq > 0 and r.random() < 0.12:
+            return self.emit("evq", t, r.randrange(self.nq))     # explicit parent by retained id: often a span that has closed
         if k < 0.6 or not c:
             self.emit("event", t, "c", 0)
         elif k < 0.7:
@@ -665,6 +669,8 @@ def model_ops(case, impl):
             groups.append(["OCurrent %d %d" % (op[1], 2 * op[2])])
         elif name == "event":
             groups.append(["OEvent_ %d %s" % (op[1], coq_pk(op[2], op[3])), "OFEvent_ %d %s" % (op[1], coq_pk(op[2], op[3]))])
+        elif name == "evq":
+            groups.append(["OEventQ %d %d" % (op[1], op[2])])
         elif name == "hold":
             groups.append(["OHold_ %d %d %d" % (op[1], op[2], 2 * op[3])])
         elif name == "poke":
@@ -1031,6 +1037,8 @@ class Oracle:
             self.op_cur(k, op, obs)
         elif name == "event":
             self.op_event(k, op, obs)
+        elif name == "evq":
+            self.op_event(k, ("event", t, "q", op[2]), obs)
         elif name == "read":
             self.op_read(k, op, obs)
         self.check_closes(k, obs, expect)
@@ -1180,14 +1188,19 @@ class Oracle:
         elif kind == "c":
             wspan, wk = want, known
         else:
-            wspan = self.handles.get(hp) if self.hkind.get(hp) == "S" else None
-            wk = True
-            if wspan is not None and self.spans[wspan].inst != i:
+            # explicit parent: through a live handle ("e") or by the retained id of span number hp ("q", possibly stale)
+            pspan = (self.handles.get(hp) if self.hkind.get(hp) == "S" else None) if kind == "e" else (hp if hp in self.spans else None)
+            wspan, wk = pspan, True
+            if pspan is not None and self.spans[pspan].inst != i:
                 wk = False      # parent from another collector: not covered
+            elif pspan is not None and self.spans[pspan].closed:
+                wspan = None    # the id does not resolve any more: the explicit parent still overrides the contextual one
         if wk:
-            f2 = wspan is not None and not self.chain_ok(wspan)
+            f2 = (wspan is not None and not self.chain_ok(wspan)) or (kind in ("e", "q") and pspan is not None and (pspan in self.tainted or not self.chain_ok(pspan)))
             if espan != wspan:
-                self.bad_or_f2(f2, "C06", "event_span is %s, expected %s (%s)" % (espan, wspan, kind), k)
+                self.bad_or_f2(f2, "C06", "event_span is %s, expected %s (%s%s)" % (espan, wspan, kind,
+                               ": the explicit parent %s has closed, its id does not resolve, and an explicit parent is never replaced by the current span" % pspan
+                               if kind in ("e", "q") and wspan is None and pspan is not None else ""), k)
             else:
                 wsc = tuple(self.ancestors(wspan)) if wspan is not None else ()
                 if escope != wsc:
@@ -1199,13 +1212,13 @@ class Oracle:
         fevs = [o for o in self.impl["ops"][k] if o["k"] == "fevent"]
         if not fevs:
             self.bad("C06", "event not delivered to the filtered layer of instance %d" % i, k)
-        elif known:
+        elif known or kind in ("e", "q", "r"):
             fe = fevs[0]
             ent = self.ene.get((i, t), [])
             vis = [q for q in ent if not self.spans[q].dbg]
             fwant = vis[-1] if vis else None
             f2 = any(q in self.tainted or not self.chain_ok(q) for q in ent)
-            if fe["cur"] != fwant:
+            if known and fe["cur"] != fwant:
                 self.bad_or_f2(f2, "C06", "filtered layer: lookup_current on thread %d is %s; entered and not exited are %s of which its filter enables %s, "
                                "so the most recently entered enabled one is %s" % (t, fe["cur"], ent, vis, fwant), k)
             if kind == "r":
@@ -1213,12 +1226,20 @@ class Oracle:
             elif kind == "c":
                 fspan, fk = fwant, True
             else:
-                fspan = self.handles.get(hp) if self.hkind.get(hp) == "S" else None
-                fk = fspan is None or (self.spans[fspan].inst == i and not self.spans[fspan].dbg)
+                fp = (self.handles.get(hp) if self.hkind.get(hp) == "S" else None) if kind == "e" else (hp if hp in self.spans else None)
+                fspan, fk = fp, True
+                if fp is not None and self.spans[fp].inst != i:
+                    fk = False
+                elif fp is not None and (self.spans[fp].closed or self.spans[fp].dbg):
+                    fspan = None     # closed (id does not resolve) or disabled by this layer's filter: no span, never the current one
+                if fp is not None and (fp in self.tainted or not self.chain_ok(fp)):
+                    f2 = True
             if fk:
                 if fe["espan"] != fspan:
                     self.bad_or_f2(f2 or (fspan is not None and not self.chain_ok(fspan)), "C06",
-                                   "filtered layer: event_span is %s, expected %s (%s)" % (fe["espan"], fspan, kind), k)
+                                   "filtered layer: event_span is %s, expected %s (%s%s)" % (fe["espan"], fspan, kind,
+                                   ": the explicit parent %s is %s for this layer, and an explicit parent is never replaced by the current span"
+                                   % (fp, "closed" if self.spans[fp].closed else "filtered out") if kind in ("e", "q") and fspan is None and fp is not None else ""), k)
                 else:
                     fsc = [a for a in self.ancestors(fspan) if not self.spans[a].dbg] if fspan is not None else []
                     if list(fe["escope"]) != fsc:
